@@ -559,7 +559,7 @@ class DenyRunner(object):
             st = os.stat(p)
             self.ino[(st.st_dev, st.st_ino)] = rel
         self.stats = dict(collects=0, items=0, accessed=0, really_executed=0, docs=0, fpersists=0, datafiles=0,
-                          blocked=0, blank_items=0, meta_items=0, deep_items=0, digit_specs=0)
+                          blocked=0, blank_items=0, meta_items=0, deep_items=0, digit_specs=0, collect_entry=0)
         self.cache = {}
 
     def factory(self, fac, kind, saveas, items):
@@ -626,21 +626,41 @@ class DenyRunner(object):
                "components": list(case["comps"])}
         self.reset()
         was = dict((n, dr.is_enabled(getattr(self.default, n))) for n in self.SPECS)
+        entry = case.get("entry", "apply")
         ctx = RecHostContext(self.root)
         broker = dr.Broker()
         broker[HostContext] = ctx
         if prov is not None:
             broker[items_provider] = prov
-        h = Hydration(self.out)
-        broker.add_observer(h.make_persister(set([ds])))
         before = self.snapshot()
+        enabled_obj, enabled_snap = dr.ENABLED, dict(dr.ENABLED)
+        if entry == "collect":
+            # the real collection entry point: the manifest disables every component by default and enables the
+            # prefix that covers the spec; the user's deny configuration arrives as rm_conf
+            name = dr.get_name(ds)
+            manifest = {"client": {"context": {"class": "insights.core.context.HostContext",
+                                               "args": {"root": self.root, "timeout": 20}},
+                                   "blacklist": {}, "persist": [{"name": name, "enabled": True}],
+                                   "run_strategy": {"name": "serial"}},
+                        "plugins": {"default_component_enabled": False, "packages": [],
+                                    "configs": [{"name": name, "enabled": True}]}}
+        else:
+            h = Hydration(self.out)
+            broker.add_observer(h.make_persister(set([ds])))
         AUDIT.start(guard=self.base)
         try:
-            collect_mod.apply_blacklist(cfg)
-            dr.run(dr.get_dependency_graph(ds), broker)
+            if entry == "collect":
+                collect_mod.collect(manifest=manifest, rm_conf=dict(cfg), tmp_path=self.W, archive_name="out")
+                self.stats["collect_entry"] += 1
+            else:
+                collect_mod.apply_blacklist(cfg)
+                dr.run(dr.get_dependency_graph(ds), broker)
         finally:
             aud = AUDIT.stop()
             self.reset()
+            dr.ENABLED = enabled_obj               # collect() replaces the table: put the process back as it was
+            enabled_obj.clear()
+            enabled_obj.update(enabled_snap)
             for n, e in was.items():
                 dr.set_enabled(getattr(self.default, n), e)
         after = self.snapshot()
@@ -695,7 +715,7 @@ class DenyRunner(object):
                     f.write(self.FILES.get(rel, ""))
                 os.utime(p, (OLD, OLD))
         self.stats["collects"] += 1
-        return [dict(ev="collect", factory=fac, kind=kind, comp=case["comp"], files=case["files"],
+        return [dict(ev="collect", factory=fac, kind=kind, comp=case["comp"], files=case["files"], entry=entry,
                      commands=case["commands"], comps=case["comps"], items=items, stored=(ds in broker)),
                 dict(ev="fpersist", factory=fac, kind=kind, saveas=saveas, seq="single", path=[],
                      written=written + blocked, wtypes=wtypes, dsts=dsts + blocked)]
